@@ -184,6 +184,32 @@ def trip_episodes():
     return eps
 
 
+def abandoned_trial_episodes():
+    """a half-open trial the client walks away from while the backend is still silent did not succeed: the breaker
+    (max_requests 1, success_threshold 1) must not be closed by it. Two requests to a failing backend follow at
+    once: a closed breaker would send both on (failure_threshold is 3)"""
+    return [["ft new %s 1 0 0 %d" % (strat, pl)] + ["ft req s500"] * 3 + ["ft wait 1150", "ft req cah", "ft req s500", "ft req s500", "ft close"]
+            for strat, pl in (("round_robin", 0), ("least_connections", 1))]
+
+
+def abandoned_trial_oracle(ep, outs):
+    lines = C.op_lines(ep)
+    reqs = []
+    for l, o in zip(lines, outs):
+        if l.startswith("ft req"):
+            d = dict(t.split("=", 1) for t in o.split(" || ", 1)[-1].split() if "=" in t)
+            reqs.append((l.split()[2], d.get("class"), int(d.get("hits", "-1")), int(d.get("at", "0"))))
+    if [r[0] for r in reqs] != ["s500"] * 3 + ["cah", "s500", "s500"]:
+        return []           # (a shrunk episode)
+    if reqs[5][3] - reqs[3][3] > 800:
+        return []           # a loaded machine: the breaker timeout may have run out again in between
+    if reqs[3][2] != reqs[2][2] + 1:
+        return []           # the abandoned request was not the trial (it never reached the backend)
+    if reqs[5][2] - reqs[3][2] >= 2:
+        return ["C07 (as wired): a half-open trial abandoned by its client closed the breaker: the next two requests (answered %s, %s) were both sent to the failing backend although no trial had succeeded" % (reqs[4][1], reqs[5][1])]
+    return []
+
+
 def trip_oracle(ep, outs):
     lines = C.op_lines(ep)
     hits = []
@@ -233,10 +259,13 @@ def run_checks(ctx, want):
     ctx.cov["wiring_episodes"] = len(wired)
     if "C07" in want:
         from . import c03
-        dt = C.Differential(ctx, c03.build(ctx), timeout=600, project=c03.project)
+        dt = C.Differential(ctx, c03.build(ctx), timeout=600, project=c03.project, confirm=2)
         trips = trip_episodes()
         dt.check(trips, oracle=trip_oracle, label="cb-front")
         ctx.cov["front_end_trip_episodes"] = len(trips)
+        ab = abandoned_trial_episodes()
+        dt.check(ab, oracle=abandoned_trial_oracle, label="cb-front-abandoned")
+        ctx.cov["front_end_abandoned_trial_episodes"] = len(ab)
     trans = {}
     nontriv = set()
     tags = {}
